@@ -1,7 +1,7 @@
 (* Gather/ProofsN.v — the empty list through the real pipeline (C01_empty) and d nested scatters gathered by d chained
    depth-1 gathers, by induction on d (C01_nested_d). *)
 From Coq Require Import List Ascii Bool Arith NArith ZArith Lia Permutation.
-From SF Require Import Base.Str Base.Dec Tags.Model Tags.Proofs Gather.Model Gather.Util Gather.Proofs.
+From SF Require Import Base.Str Base.Dec Tags.Model Tags.Proofs Gather.Model Gather.Util Gather.Proofs Gather.ProofsD.
 Import ListNotations.
 Local Open Scope string_scope. Local Open Scope list_scope.
 
@@ -42,6 +42,35 @@ Proof.
     + exfalso. apply (Hl2 (OnSize t 0)); [left; reflexivity|reflexivity].
     + destruct p2; try congruence. unfold gather_run; cbn -[data_step forced_gather];
         rewrite D2, D1; split; reflexivity.
+Qed.
+
+(* ------------------------------------------------------------------ any termination statuses but FAILED *)
+(* C01_many_keys with the two termination tokens carrying ANY statuses other than FAILED (an inner gather of a nested
+   pipeline receives SKIPPED when all the inner lists are empty): same outputs; the final status follows the
+   statuses *)
+Lemma gather_many_perm_st insts l1 l2 p1 p2 st1 st2 :
+  Forall inst_ok insts -> NoDup (map ikey insts) ->
+  Permutation (l1 ++ l2) (all_arrivals insts) ->
+  p1 <> p2 -> (forall a, In a l2 -> port_of a <> p1) ->
+  st1 <> Failed -> st2 <> Failed ->
+  let s := gather_run 1 (l1 ++ OnTerm p1 st1 :: l2 ++ [OnTerm p2 st2]) in
+  Permutation (gout (gd s)) (expected_out insts)
+  /\ gfinal s = Some (get_status (reduce_statuses [reduce_statuses [Skipped; st1]; st2])
+                                  (match insts with [] => true | _ => false end)).
+Proof.
+  intros Hok Hnd Hp Hne Hl2 H1 H2 s.
+  destruct (data_many insts (l1 ++ l2) Hok Hnd Hp) as (D1 & D2 & D3).
+  set (dd := fold_left (data_step 1) (l1 ++ l2) dinit) in *.
+  assert (Hnt : forall a, In a (l1 ++ l2) -> is_term a = false).
+  { intros a Ha. eapply all_arrivals_no_term; [exact Hok|]. eapply Permutation_in; [exact Hp|exact Ha]. }
+  destruct (run_terms_gd 1 l1 l2 p1 p2 st1 st2 Hnt Hne Hl2 H1 H2) as [G1 G2]. fold dd in G1, G2. fold s in G1, G2.
+  rewrite (forced_gather_all_done dd D3) in G1, G2.
+  assert (P : Permutation (gout dd) (expected_out insts)).
+  { apply perm_by_keys; auto. intros i Hi. apply D1. exact Hi. }
+  rewrite G1. split; [exact P|]. rewrite G2. f_equal. f_equal.
+  destruct insts as [|i insts'].
+  - apply Permutation_sym, Permutation_nil in P. rewrite P. reflexivity.
+  - destruct (gout dd); [apply Permutation_nil in P; discriminate|reflexivity].
 Qed.
 
 (* ------------------------------------------------------------------ nested lists of any depth *)
@@ -97,11 +126,12 @@ Qed.
 (* one gather level: any legal complete arrival sequence of the size tokens of the family and of the element
    tokens [elems] (which the level below delivered in whatever order) *)
 Definition level_run (F : fam) (elems outs : list tok) : Prop :=
-  exists l1 l2 p1 p2,
+  exists l1 l2 p1 p2 st1 st2,
     Permutation (l1 ++ l2) (map (fun x => OnSize (render (fst x)) (N.of_nat (length (snd (inst_of x))))) F
                             ++ map OnElem elems) /\
     p1 <> p2 /\ (forall a, In a l2 -> port_of a <> p1) /\
-    outs = gout (gd (gather_run 1 (l1 ++ OnTerm p1 Completed :: l2 ++ [OnTerm p2 Completed]))).
+    st1 <> Failed /\ st2 <> Failed /\      (* e.g. SKIPPED, which a level whose lists are all empty receives *)
+    outs = gout (gd (gather_run 1 (l1 ++ OnTerm p1 st1 :: l2 ++ [OnTerm p2 st2]))).
 
 (* d levels: the leaves arrive in any order; every level is one such gather fed by the level below *)
 Fixpoint chain (d : nat) (F : fam) (outs : list tok) : Prop :=
@@ -208,13 +238,13 @@ Qed.
 Lemma chain_correct d : forall F outs, fam_ok d F -> chain d F outs -> Permutation outs (fexpect F).
 Proof.
   induction d as [|d IH]; intros F outs Hok Hc; [exact Hc|].
-  destruct Hc as (elems & Hk & (l1 & l2 & p1 & p2 & Hp & Hne & Hl2 & ->)).
+  destruct Hc as (elems & Hk & (l1 & l2 & p1 & p2 & st1 & st2 & Hp & Hne & Hl2 & S1 & S2 & ->)).
   pose proof (IH (kids F) elems (kids_ok d F Hok) Hk) as He.
   destruct (insts_ok d F Hok) as [Hi Hnd].
   assert (Hp' : Permutation (l1 ++ l2) (all_arrivals (map inst_of F))).
   { rewrite Hp, all_arrivals_perm. apply Permutation_app_head. apply Permutation_map.
     rewrite He. rewrite (kids_expect F d (proj1 Hok)). reflexivity. }
-  destruct (gather_many_perm (map inst_of F) l1 l2 p1 p2 Hi Hnd Hp' Hne Hl2) as [G _].
+  destruct (gather_many_perm_st (map inst_of F) l1 l2 p1 p2 st1 st2 Hi Hnd Hp' Hne Hl2 S1 S2) as [G _].
   rewrite G. rewrite (expected_insts d F Hok). reflexivity.
 Qed.
 
@@ -253,8 +283,8 @@ Proof.
   eexists. split; [|simpl; tauto]. simpl.
   eexists. split.
   - eexists. split; [apply Permutation_refl|].
-    eexists _, [], SizeP, ElemP. split; [rewrite app_nil_r; apply Permutation_refl|].
-    split; [discriminate|]. split; [intros a []|reflexivity].
-  - eexists _, [], SizeP, ElemP. split; [rewrite app_nil_r; apply Permutation_refl|].
-    split; [discriminate|]. split; [intros a []|reflexivity].
+    eexists _, [], SizeP, ElemP, Completed, Completed. split; [rewrite app_nil_r; apply Permutation_refl|].
+    split; [discriminate|]. split; [intros a []|]. split; [discriminate|]. split; [discriminate|reflexivity].
+  - eexists _, [], SizeP, ElemP, Skipped, Completed. split; [rewrite app_nil_r; apply Permutation_refl|].
+    split; [discriminate|]. split; [intros a []|]. split; [discriminate|]. split; [discriminate|reflexivity].
 Qed.
